@@ -12,8 +12,9 @@ DEP = ns.BaseTaskDependency
 
 def oracle(tasks, t):
     """Textbook forward/backward pass over remaining work (FS-only, acyclic)."""
-    preds = {x: [p for p, d in x.input_task_list] for x in tasks}
-    succs = {x: [s for s, d in x.output_task_list] for x in tasks}
+    ids = set(map(id, tasks))
+    preds = {x: [p for p, d in x.input_task_list if id(p) in ids] for x in tasks}
+    succs = {x: [s for s, d in x.output_task_list if id(s) in ids] for x in tasks}
     order, seen = [], set()
 
     def visit(x):
@@ -39,13 +40,14 @@ def oracle(tasks, t):
 
 
 def fs_only(tasks):
-    ids = set(map(id, tasks))
+    """All links are finish-to-start. A link to a task that is not (any more) in the workflow is
+    not part of the network: the oracle ignores it, the code under test must not be confused by it."""
     for x in tasks:
         for p, d in x.input_task_list:
-            if d != DEP.FS or id(p) not in ids:
+            if d != DEP.FS:
                 return False
         for s, d in x.output_task_list:
-            if d != DEP.FS or id(s) not in ids:
+            if d != DEP.FS:
                 return False
     return True
 
@@ -127,6 +129,12 @@ def make_case(prop, seed, i, tier):
             ops.append(dict(muts=muts, t=t))
         return dict(prop=prop, i=i, kind="standalone", spec=spec, ops=ops)
     spec = G.gen_fs(rng, max_tasks=12 if big else 9)
+    if i % 6 == 1:
+        # history: backward_simulate (helper tasks for due times come and go), then a forward run
+        for t in spec["tasks"]:
+            if rng.random() < 0.7:
+                t["due"] = rng.choice([0, 3, 5, 5, 10, 20])
+        return dict(prop=prop, i=i, kind="after-backward", spec=spec, due=rng.random() < 0.8, reverse=rng.random() < 0.5)
     return dict(prop=prop, i=i, kind="sim", spec=spec)
 
 
@@ -137,7 +145,21 @@ def run_case(case):
     spec = case["spec"]
     chk = PertChecker(res)
     res["source"] = case["kind"]
-    if case["kind"] == "sim":
+    if case["kind"] == "after-backward":
+        from .history import Hist
+        I.set_order(I.default_order(spec))
+        _state["checker"] = chk
+        try:
+            h = Hist(spec)
+            e = h.do(["backward", case["due"], case["reverse"]])
+            res.count("C12.backward_runs")
+            if e is None:
+                e = h.do(["sim"])
+            if e is not None:
+                res["aborted"] = e
+        finally:
+            _state["checker"] = None
+    elif case["kind"] == "sim":
         _state["checker"] = chk
         try:
             m, tr, err = forward(spec, lambda started: [])
